@@ -28,7 +28,7 @@ def assigned_names(stmts):
             if isinstance(n, ast.Name) and isinstance(n.ctx, ast.Store):
                 out.add(n.id)
             if isinstance(n, ast.Yield):
-                out.update(('$ycnt', '$yany', '$ylast', '$ypair'))       # ghost state of a generator
+                out.update(('$ycnt', '$yany', '$ylast', '$ypair', '$yrow'))       # ghost state of a generator
             if isinstance(n, ast.Subscript) and isinstance(n.ctx, ast.Store) and isinstance(n.value, ast.Name):
                 out.add(n.value.id)                          # d[k] = v mutates the local d
     return out
@@ -49,6 +49,8 @@ def havoc_like(v, name):
         return havoc_seq(v, name)
     if k == 'tuple':
         return VTuple([havoc_like(x, name) for x in v.items])
+    if k == 'list' and not v.esc:
+        return VList([havoc_like(x, '%s[%d]' % (name, i)) for i, x in enumerate(v.items)])
     if k == 'opaque' and v.tag == 'ghost':
         return VOpaque(fresh(name, v.z.sort()), 'ghost')
     if k == 'dict' and (getattr(v, 'symset', None) is not None or not v.pairs) and not v.esc:
